@@ -291,22 +291,25 @@ def replay_count(d):
     sc = object.__new__(Scenario)
     sc.clock = clock
     sc.logger = types.SimpleNamespace(info=lambda *a, **k: None, error=lambda *a, **k: None)
-    sc.scenario_config = types.SimpleNamespace(propagation=types.SimpleNamespace(truth_simulation_only=True), time=types.SimpleNamespace(physics_step_sec=d["dt"], output_step_sec=d["dt"]))
+    out_step = d.get("out", d["dt"])
+    sc.scenario_config = types.SimpleNamespace(propagation=types.SimpleNamespace(truth_simulation_only=True), time=types.SimpleNamespace(physics_step_sec=d["dt"], output_step_sec=out_step))
     n = [0]
+    saves = []
 
     def step():
         n[0] += 1
         clock.ticToc()
 
-    sc.stepForward, sc.saveDatabaseOutput = step, lambda: None
+    sc.stepForward, sc.saveDatabaseOutput = step, lambda: saves.append(float(clock.time))
     try:
         sc.propagateTo(JulianDate(d["jd_target"]))
         raised = None
     except ValueError as e:
         raised = repr(e)
     want = (d["D"] - d["t_now"]) // d["dt"]
-    bad = n[0] != want or float(clock.time) != d["t_now"] + want * d["dt"] or (raised is not None and want >= 1)
-    return bad, {"steps_made": n[0], "steps_expected": want, "clock_time": float(clock.time), "raised": raised}
+    want_saves = [float(d["t_now"] + (i + 1) * d["dt"]) for i in range(want) if (d["t_now"] + (i + 1) * d["dt"]) % out_step == 0]
+    bad = n[0] != want or float(clock.time) != d["t_now"] + want * d["dt"] or (raised is not None and want >= 1) or saves != want_saves
+    return bad, {"steps_made": n[0], "steps_expected": want, "clock_time": float(clock.time), "raised": raised, "outputs_at": saves, "outputs_expected_at": want_saves}
 
 
 def o_step_count(rep, dt):
@@ -417,7 +420,10 @@ def o_loop(rep, dt, out_step):
         goals.append(z3.Implies(cond, z3.And(z3.BoolVal(len(want) == len(saves)), *[a == b for a, b in zip(want, saves)])))
         goals.append(cond)  # the save pattern is determined by the path (saves are decided by branches on time % output_step)
         lemmas = [(f"rounded-delta#{i}", n_ == rem) for i, (key, n_) in enumerate(r.path.trig.items()) if key[0] == "rhe"]
-        rep.prove(f"loop[dt={dt},out={out_step}]#{k}(n={n})", z3.And(*goals), fp.sliced(r.path, z3.And(*goals)), timeout_ms=60000, lemmas=lemmas,
+        def inputs(mm, dt=dt, out_step=out_step):
+            return {"jd_start": float(mval(mm, z3.Real("js"))), "jd_target": float(mval(mm, z3.Real("jt"))), "D": mval(mm, z3.Int("D")), "t_now": mval(mm, z3.Int("k0")) * dt, "dt": dt, "out": out_step}
+
+        rep.prove(f"loop[dt={dt},out={out_step}]#{k}(n={n})", z3.And(*goals), fp.sliced(r.path, z3.And(*goals)), timeout_ms=60000, lemmas=lemmas, inputs=inputs, replay=replay_count,
                   sample="after propagateTo the clock reads t_now + floor((D - t_now)/dt)*dt; saveDatabaseOutput ran exactly at the visited times that are multiples of the output step")
     if not {1, 2, 3} <= seen:
         rep.error(f"reach[dt={dt}]", f"loop counts reached: {sorted(seen)}")
